@@ -191,7 +191,8 @@ def one(ctx, fam, i):
         if plain_inputs and rng.random() < 0.3:
             # a plain input named in the run-time selection, in every accepted container form: rejected, or at least never returned
             pin = rng.choice(plain_inputs)
-            for form in ([pin], (pin,), pin, [sorted(data)[0], pin] if data else [pin], tuple([sorted(data)[0], pin]) if data else (pin,)):
+            d0 = sorted(data)[0] if data else pin
+            for form in ([pin], (pin,), pin, [d0, pin], (d0, pin), {pin}, frozenset([d0, pin]), iter([pin]), {pin: 1}.keys(), (x for x in [d0, pin])):
                 o = core.execute(built, provided, runner, select=form, error_handling="continue", max_iterations=100)
                 ctx.obs["input_name_selected_probes"] += 1
                 c2 = {**case, "provided": core.jsonable(provided), "select": core.jsonable(form)}
